@@ -562,16 +562,20 @@ package saml2
 //@   exit [C03] profile: err == nil ==> ProfileOK(sp, response)
 //@   exit [C05, C06] warnings: err == nil ==> CondWellFormed(response.Assertions[0].Conditions)
 //@        && WarningsMirror(sp, response.Assertions[0].Conditions, assertionInfo.WarningInfo)
-//@   exit [C08] nameid: err == nil ==> assertionInfo.NameID == response.Assertions[0].Subject.NameID.Value
+//@   exit [C08, C01] nameid: err == nil ==> assertionInfo.NameID == response.Assertions[0].Subject.NameID.Value
 //@   loop 0
 //@     invariant [C08] present: forall j int :: 0 <= j && j < $i ==> has(assertionInfo.Values, attributeStatement.Attributes[j].Name)
 //@     invariant [C08] last: forall j int :: 0 <= j && j < $i ==>
 //@          (forall i int :: j < i && i < $i ==> attributeStatement.Attributes[i].Name != attributeStatement.Attributes[j].Name)
 //@          ==> assertionInfo.Values[attributeStatement.Attributes[j].Name] == attributeStatement.Attributes[j]
-//@   exit [C08] session: err == nil && response.Assertions[0].AuthnStatement != nil ==>
+//@   exit [C08, C01] session: err == nil && response.Assertions[0].AuthnStatement != nil ==>
 //@        assertionInfo.SessionIndex == response.Assertions[0].AuthnStatement.SessionIndex
 //@        && assertionInfo.AuthnInstant == response.Assertions[0].AuthnStatement.AuthnInstant
 //@        && assertionInfo.SessionNotOnOrAfter == response.Assertions[0].AuthnStatement.SessionNotOnOrAfter
+// Session values come from the (signed) assertion only: without an AuthnStatement none is reported -- in particular
+// nothing is taken from the Response level, which is unauthenticated when only the assertions are signed.
+//@   exit [C08, C01] nosession: err == nil && response.Assertions[0].AuthnStatement == nil ==>
+//@        assertionInfo.SessionIndex == "" && assertionInfo.AuthnInstant == nil && assertionInfo.SessionNotOnOrAfter == nil
 
 // ---------------------------------------------------------------------------
 // saml.go: key selection (C11 C13 C19), signing context (C13 C17), metadata (C19)
@@ -665,7 +669,7 @@ package saml2
 // Guarded-by discipline for the lazily built signing context (C17).
 //@ guarded [C17] SAMLServiceProvider.signingContext by signingContextMu
 // ... and the context object itself is configured only under the write lock (it is shared once published).
-//@ guarded [C17] pointee dsig.SigningContext by SAMLServiceProvider.signingContextMu
+//@ guarded [C17, C13] pointee dsig.SigningContext by SAMLServiceProvider.signingContextMu
 
 //@ pure func KDCert(kd types.KeyDescriptor) string {
 //@   return kd.KeyInfo.X509Data.X509Certificates[0].Data
@@ -1023,31 +1027,34 @@ package saml2
 
 //@ func (sp *SAMLServiceProvider) buildAuthBodyPostFromDocument(relayState string, doc *etree.Document) (out []byte, err error)
 //@   requires sp != nil && doc != nil
-//@   frame [C17]
+//@   frame [C17, C16]
 //@   assigns nothing
 //@   exit [C16] template: err == nil ==> tmplWellFormed(tmpl.$text, "SAMLRequest") && (tmplHasRelay(tmpl.$text) <==> relayState != "")
 //@   exit [C16] endpoint: err == nil ==> data.URL == sp.IdentityProviderSSOURL
 //@   exit [C16] payload: err == nil ==> data.SAMLRequest == b64enc(reqBuf)
+//@   exit [C16] message: err == nil ==> serOf(reqBuf) == old(doc.$root)
 //@   exit [C16] relay: err == nil ==> data.RelayState == relayState
 //@   exit [C16] output: err == nil ==> out == rendered(tmpl.$text, data)
 
 //@ func (sp *SAMLServiceProvider) buildLogoutBodyPostFromDocument(relayState string, doc *etree.Document) (out []byte, err error)
 //@   requires sp != nil && doc != nil
-//@   frame [C17]
+//@   frame [C17, C16]
 //@   assigns nothing
 //@   exit [C16] template: err == nil ==> tmplWellFormed(tmpl.$text, "SAMLRequest") && (tmplHasRelay(tmpl.$text) <==> relayState != "")
 //@   exit [C16] endpoint: err == nil ==> data.URL == sp.IdentityProviderSLOURL
 //@   exit [C16] payload: err == nil ==> data.SAMLRequest == b64enc(reqBuf)
+//@   exit [C16] message: err == nil ==> serOf(reqBuf) == old(doc.$root)
 //@   exit [C16] relay: err == nil ==> data.RelayState == relayState
 //@   exit [C16] output: err == nil ==> out == rendered(tmpl.$text, data)
 
 //@ func (sp *SAMLServiceProvider) buildLogoutResponseBodyPostFromDocument(relayState string, doc *etree.Document) (out []byte, err error)
 //@   requires sp != nil && doc != nil
-//@   frame [C17]
+//@   frame [C17, C16]
 //@   assigns nothing
 //@   exit [C16] template: err == nil ==> tmplWellFormed(tmpl.$text, "SAMLResponse") && (tmplHasRelay(tmpl.$text) <==> relayState != "")
 //@   exit [C16] endpoint: err == nil ==> data.URL == sp.IdentityProviderSLOURL
 //@   exit [C16] payload: err == nil ==> data.SAMLResponse == b64enc(respBuf)
+//@   exit [C16] message: err == nil ==> serOf(respBuf) == old(doc.$root)
 //@   exit [C16] relay: err == nil ==> data.RelayState == relayState
 //@   exit [C16] output: err == nil ==> out == rendered(tmpl.$text, data)
 
